@@ -111,6 +111,15 @@ def statements(tier):
   out.append(("if:default-then-override", 4, [("=", ref("{o}"), c(4, 1)), ("if", ("bin", ">", ref("in8"), ("i", 100)), [("=", ref("{o}"), ref("in8", ("s", 2, 6)))], [])]))
   out.append(("sext:compound", 8, [("=", ref("{o}"), ("call", "sext", ("bin", "+", ref("in4a"), ref("in4b")), ("n", 8)))]))
   out.append(("sext:slice", 8, [("=", ref("{o}"), ("call", "sext", ref("in8", ("s", 2, 5)), ("n", 8)))]))
+  # casts and extensions that do not change the width, around a compound expression and inside another operator
+  s44 = ("bin", "+", ref("in4a"), ref("in4b"))
+  s88 = ("bin", "+", ref("in8"), ("call", "zext", ref("in4a"), ("n", 8)))
+  same = {"zext": ("call", "zext", s44, ("n", 4)), "sext": ("call", "sext", s44, ("n", 4)), "trunc": ("call", "trunc", s44, ("n", 4)), "cast": ("call", "Bits4", s44),
+          "trunc-narrow": ("call", "trunc", s88, ("n", 4))}
+  for nm, e in same.items():
+    out.append((f"samewidth:{nm}:mul", 4, [("=", ref("{o}"), ("bin", "*", e, ref("in4b")))]))
+    out.append((f"samewidth:{nm}:inv", 4, [("=", ref("{o}"), ("un", "~", e))]))
+    out.append((f"samewidth:{nm}:and-shift", 4, [("=", ref("{o}"), ("bin", "&", ("bin", ">>", e, ("i", 1)), ref("in4a")))]))
   out.append(("struct:ctor", 4, [("=", ref("{o}"), ("call", "concat", ref("st", ("f", "b")), ref("st", ("f", "a"))))]))
   return out
 
